@@ -9,9 +9,12 @@ from mygrad.typing import ArrayLike
 
 
 def _softmax(x, kwargs):
+    if issubclass(x.dtype.type, (np.integer, np.bool_)):
+        # `x - x.max()` must not wrap around in a small integer type
+        x = x.astype(float)
     if x.ndim > 0 and x.size > 0:
         x = x - x.max(**kwargs)
-        target = x.astype(float) if issubclass(x.dtype.type, np.integer) else x
+        target = x
 
         target = np.exp(x, out=target)
         target /= target.sum(**kwargs)
